@@ -40,6 +40,13 @@ def run(ctx):
                  # explicit paths relative to the working directory: with a directory part, and the bare file name
                  ('relpath', {'op': 'load', 'spec': os.path.join(lib, 'library.yaml'), 'cwd': os.path.join(vlib.REPO, 'pgradd', 'data')}, None),
                  ('barefile', {'op': 'load', 'spec': 'library.yaml', 'cwd': os.path.join(vlib.REPO, 'pgradd', 'data', lib)}, None)]
+        # the library's own directory relocated ALONE (no sibling libraries next to it): every library is self-contained
+        alone = os.path.join(vlib.WORK, 'c14_alone_' + lib)
+        if os.path.exists(alone):
+            shutil.rmtree(alone)
+        shutil.copytree(os.path.join(vlib.REPO, 'pgradd', 'data', lib), os.path.join(alone, lib))
+        modes += [('alone-override', {'op': 'load', 'spec': lib, 'env': alone}, None),
+                  ('alone-path', {'op': 'load', 'spec': os.path.join(alone, lib, 'library.yaml')}, None)]
         fps = []
         from concurrent.futures import ThreadPoolExecutor
         with ThreadPoolExecutor(len(modes)) as ex:
